@@ -1292,6 +1292,333 @@ theorem obj_roundtrip_struct (matFile : String) (ms : List (String × Mesh α)) 
     obtain ⟨d1, d2, d3⟩ := pool_data_aux ((name, m) :: rest)
     exact ⟨by rw [a1, b1, g1, h1, d1]; simp, by rw [a2, b2, g2, h2, d2]; simp, by rw [a3, b3, g3, h3, d3]; simp⟩
 
+/-! #### from the structural round trip and the table invariant to the property predicate -/
+
+section final
+
+def flatC {τ : Type} : List (τ × τ × τ) → List τ
+  | [] => []
+  | (a, b, c) :: r => a :: b :: c :: flatC r
+
+theorem lookup_aux {β γ : Type} {tbl : List β} {key : List γ} {f : γ → Option β}
+    (h : tbl.map some = key.map f) {p : Nat} {t : γ} (hp : key[p]? = some t) : tbl[p]? = f t := by
+  have := congrArg (fun l => l[p]?) h
+  simp only [List.getElem?_map, hp, Option.map_some] at this
+  cases hv : tbl[p]? with
+  | none => simp [hv] at this
+  | some x => simp only [hv, Option.map_some, Option.some.injEq] at this; rw [this]
+
+/-- every corner of every triangle finds, in a table aligned with the tokens, the entry of its own token -/
+theorem flat_lookup_aux {β γ : Type} {tbl : List β} {key : List γ} {f : γ → Option β}
+    (h : tbl.map some = key.map f) : ∀ (tris : List (Nat × Nat × Nat)) (ftoks : List (γ × γ × γ)),
+    tris.map (fun t => (key[t.1]?, key[t.2.1]?, key[t.2.2]?)) = ftoks.map (fun f => (some f.1, some f.2.1, some f.2.2)) →
+    (flatTris tris).map (fun i => tbl[i]?) = (flatC ftoks).map f
+  | [], [], _ => rfl
+  | [], _ :: _, h' => by simp at h'
+  | _ :: _, [], h' => by simp at h'
+  | (p1, p2, p3) :: tris, (a, b, c) :: ftoks, h' => by
+    simp only [List.map_cons, List.cons.injEq, Prod.mk.injEq] at h'
+    obtain ⟨⟨h1, h2, h3⟩, hr⟩ := h'
+    simp only [flatTris, flatC, List.map_cons, lookup_aux h h1, lookup_aux h h2, lookup_aux h h3,
+      flat_lookup_aux h tris ftoks hr]
+
+theorem flatC_cornerTriples_aux (mk : Nat → Corner) : ∀ ts : List (Nat × Nat × Nat),
+    flatC (cornerTriples mk ts) = (flatTris ts).map mk
+  | [] => rfl
+  | (a, b, c) :: ts => by
+    have := flatC_cornerTriples_aux mk ts
+    simp only [cornerTriples] at this
+    simp [cornerTriples, flatC, flatTris, this]
+
+theorem mem_flatC_aux {τ : Type} : ∀ (fs : List (τ × τ × τ)) (f : τ × τ × τ), f ∈ fs →
+    f.1 ∈ flatC fs ∧ f.2.1 ∈ flatC fs ∧ f.2.2 ∈ flatC fs
+  | [], _, h => by cases h
+  | (a, b, c) :: r, f, h => by
+    rcases List.mem_cons.1 h with rfl | h
+    · simp [flatC]
+    · obtain ⟨h1, h2, h3⟩ := mem_flatC_aux r f h
+      simp [flatC, h1, h2, h3]
+
+theorem flatTris_len_eq_aux : ∀ (tris : List (Nat × Nat × Nat)), (flatTris tris).length = 3 * tris.length :=
+  flatTris_length_aux
+
+theorem v3map_id_aux (v : V3 α) : V3.map (fun x => x) v = v := by cases v; rfl
+theorem v2map_id_aux (v : V2 α) : V2.map (fun x => x) v = v := by cases v; rfl
+
+theorem filterMap_all_aux {β γ : Type} (f : β → Option γ) (g : β → γ) : ∀ l : List β, (∀ t ∈ l, f t = some (g t)) →
+    l.filterMap f = l.map g
+  | [], _ => rfl
+  | a :: l, h => by
+    simp [List.filterMap_cons, h a (by simp), filterMap_all_aux f g l (fun t ht => h t (by simp [ht]))]
+
+theorem filterMap_none_aux {β γ : Type} (f : β → Option γ) : ∀ l : List β, (∀ t ∈ l, f t = none) → l.filterMap f = []
+  | [], _ => rfl
+  | a :: l, h => by
+    simp [List.filterMap_cons, h a (by simp), filterMap_none_aux f l (fun t ht => h t (by simp [ht]))]
+
+/-- one attribute of one group: if the source mesh has the array `src` (at pool offset `off`, every
+    token's slot being `some (i+off)`), the group's table is complete and carries, corner by corner, the
+    source entries; if the source lacks it, the group's table is empty -/
+theorem attr_aux {β : Type} [DecidableEq β] (pool : List β) (off : Nat) (idx : List Nat) (mk : Nat → Corner)
+    (sl : Corner → Option Nat) (g : Group Corner α) (tbl : List β)
+    (htbl : tbl.map some = (g.toks.filterMap sl).map (fun i => pool[i]?))
+    (hf : g.tris.map (fun t => (g.toks[t.1]?, g.toks[t.2.1]?, g.toks[t.2.2]?)) =
+          g.ftoks.map (fun f => (some f.1, some f.2.1, some f.2.2)))
+    (hm : ∀ t ∈ g.toks, ∃ f ∈ g.ftoks, t = f.1 ∨ t = f.2.1 ∨ t = f.2.2)
+    (hft : g.ftoks = cornerTriples mk (triplesOf idx)) (h3 : idx.length % 3 = 0) :
+    (∀ src : List β, (∀ i ∈ idx, sl (mk i) = some (i + off) ∧ i < src.length ∧ pool[i + off]? = src[i]?) →
+      tbl.length = g.toks.length ∧ (flatTris g.tris).map (fun i => tbl[i]?) = idx.map (fun i => src[i]?)) ∧
+    ((∀ i ∈ idx, sl (mk i) = none) → tbl = []) := by
+  have htoks : ∀ t ∈ g.toks, ∃ i ∈ idx, t = mk i := by
+    intro t ht
+    obtain ⟨f, hfm, hh⟩ := hm t ht
+    rw [hft] at hfm
+    obtain ⟨h1, h2, h3'⟩ := mem_flatC_aux _ f hfm
+    rw [flatC_cornerTriples_aux, flat_triplesOf_aux idx h3] at h1 h2 h3'
+    rcases hh with rfl | rfl | rfl
+    · obtain ⟨i, hi, e⟩ := List.mem_map.1 h1; exact ⟨i, hi, e.symm⟩
+    · obtain ⟨i, hi, e⟩ := List.mem_map.1 h2; exact ⟨i, hi, e.symm⟩
+    · obtain ⟨i, hi, e⟩ := List.mem_map.1 h3'; exact ⟨i, hi, e.symm⟩
+  constructor
+  · intro src hsrc
+    -- every token has the slot
+    have hall : ∀ t ∈ g.toks, sl t = some ((sl t).getD 0) := by
+      intro t ht
+      obtain ⟨i, hi, rfl⟩ := htoks t ht
+      rw [(hsrc i hi).1]; rfl
+    rw [filterMap_all_aux sl (fun t => (sl t).getD 0) g.toks hall, List.map_map] at htbl
+    refine ⟨by simpa using congrArg List.length htbl, ?_⟩
+    rw [flat_lookup_aux htbl g.tris g.ftoks hf, hft, flatC_cornerTriples_aux, flat_triplesOf_aux idx h3, List.map_map]
+    apply List.map_congr_left
+    intro i hi
+    obtain ⟨e1, _, e3⟩ := hsrc i hi
+    simp [e1, e3]
+  · intro hnone
+    have : g.toks.filterMap sl = [] := filterMap_none_aux sl g.toks (by
+      intro t ht
+      obtain ⟨i, hi, rfl⟩ := htoks t ht
+      exact hnone i hi)
+    rw [this] at htbl
+    simpa using htbl
+
+theorem attrMatches_some_aux {β : Type} [DecidableEq β] (f : β → β) (hf : ∀ x, f x = x) (idx ridx : List Nat)
+    (a b : List β) (hin : ∀ i ∈ idx, i < a.length)
+    (h : ridx.map (fun i => b[i]?) = idx.map (fun i => a[i]?)) :
+    attrMatches f idx ridx (some a) (some b) = true := by
+  have hw : idx.map (fun i => (a[i]?).map f) = idx.map (fun i => a[i]?) := by
+    apply List.map_congr_left
+    intro i _
+    cases a[i]? <;> simp [hf]
+  unfold attrMatches
+  simp only [hw, h, Bool.and_eq_true, List.all_eq_true, List.mem_map, forall_exists_index, and_imp,
+    forall_apply_eq_imp_iff₂, beq_self_eq_true, and_true]
+  intro i hi
+  simp [List.getElem?_eq_getElem (hin i hi)]
+
+theorem nextCarry_eq_aux (carry : Option String) (m : Mesh α) : nextCarry carry m = lastMat m.mats carry := by
+  unfold nextCarry lastMat
+  cases m.mats.getLast? with
+  | none => rfl
+  | some p => cases p; rfl
+
+theorem expectMats_eq_aux (carry : Option String) (m : Mesh α) (h3 : m.idx.length % 3 = 0) :
+    (expMats carry m).map (fun (p : String × Nat) => ((some p.1 : Option String), p.2)) = expectMats carry m := by
+  unfold expMats expectMats writtenMats
+  by_cases hm : m.mats = []
+  · cases carry with
+    | none => simp [hm]
+    | some a =>
+      by_cases hi : m.idx = []
+      · simp [hm, hi]
+      · have : m.idx.length / 3 ≠ 0 := by
+          have : m.idx.length ≠ 0 := fun h => hi (List.eq_nil_of_length_eq_zero h)
+          omega
+        simp [hm, hi, this]
+  · simp [hm, List.map_map, Function.comp_def]
+
+/-- one group against its mesh -/
+theorem group_matches_aux [DecidableEq α] (PV PN : List (V3 α)) (PT : List (V2 α)) (vo to no : Nat)
+    (carry : Option String) (m : Mesh α) (g : Group Corner α) (hw : WFMesh m)
+    (hp : PoolsFor PV PN PT vo to no m) (hi : GInv pcId PV PN PT g)
+    (hft : g.ftoks = cornerTriples (mkCorner m.uv.isSome m.nrm.isSome vo to no) (triplesOf m.idx))
+    (hmats : g.mats = expMats carry m) :
+    MeshMatches id m (expectMats carry m) (toMesh g).2 = true := by
+  obtain ⟨ps, hps, hlt⟩ := hw.pos
+  have h3 := hw.len3
+  have hlen : g.tris.length = (triplesOf m.idx).length := by
+    have := congrArg List.length hi.hf
+    simpa [hft, cornerTriples] using this
+  have hridx : (flatTris g.tris).length = m.idx.length := by
+    rw [flatTris_length_aux, hlen, triplesOf_length_aux]; omega
+  have hmats' : (g.mats.map fun (p : String × Nat) => ((some p.1 : Option String), p.2)) = expectMats carry m := by
+    rw [hmats]; exact expectMats_eq_aux carry m h3
+  -- positions
+  have hvof : ∀ i ∈ m.idx, vOf pcId PV (mkCorner m.uv.isSome m.nrm.isSome vo to no i) = ps[i]? := by
+    intro i hi'
+    have : i + 1 + vo - 1 = i + vo := by omega
+    simp [vOf, mkCorner, this, hp.1 ps hps i (hlt i hi')]
+  have hposl : (flatTris g.tris).map (fun i => g.verts[i]?) = m.idx.map (fun i => ps[i]?) := by
+    rw [flat_lookup_aux hi.hv g.tris g.ftoks hi.hf, hft, flatC_cornerTriples_aux, flat_triplesOf_aux m.idx h3,
+      List.map_map]
+    exact List.map_congr_left hvof
+  have hvl : g.verts.length = g.toks.length := by simpa using congrArg List.length hi.hv
+  -- normals and uvs
+  obtain ⟨hn1, hn2⟩ := attr_aux PN no m.idx (mkCorner m.uv.isSome m.nrm.isSome vo to no) (fun c => slot c.vn) g g.normals
+    hi.hn hi.hf hi.hm hft h3
+  obtain ⟨ht1, ht2⟩ := attr_aux PT to m.idx (mkCorner m.uv.isSome m.nrm.isSome vo to no) (fun c => slot c.vt) g g.uvs
+    hi.ht hi.hf hi.hm hft h3
+  unfold MeshMatches
+  simp only [toMesh, hridx, hmats', beq_self_eq_true, Bool.true_and]
+  by_cases hidx : m.idx = []
+  · -- no triangle: no token, no table
+    have hts : triplesOf m.idx = [] := by rw [hidx]; rfl
+    have hf0 : g.ftoks = [] := by rw [hft, hts]; rfl
+    have htoks : g.toks = [] := by
+      cases ht : g.toks with
+      | nil => rfl
+      | cons t r =>
+        obtain ⟨f, hf, _⟩ := hi.hm t (by rw [ht]; simp)
+        rw [hf0] at hf; cases hf
+    have hv0 : g.verts = [] := by
+      have := hi.hv; rw [htoks] at this; simpa using this
+    have hn0 : g.normals = [] := by
+      have := hi.hn; rw [htoks] at this; simpa using this
+    have hu0 : g.uvs = [] := by
+      have := hi.ht; rw [htoks] at this; simpa using this
+    simp [hidx, hv0, hn0, hu0, optOfList, keepIfComplete]
+  · simp only [hidx, ↓reduceIte, Bool.and_eq_true]
+    have htne : g.tris ≠ [] := by
+      intro h
+      have : m.idx.length = 0 := by rw [← hridx, h]; rfl
+      exact hidx (List.eq_nil_of_length_eq_zero this)
+    have hvne : g.verts ≠ [] := by
+      intro h
+      cases htr : g.tris with
+      | nil => exact htne htr
+      | cons t r =>
+        have := hposl
+        rw [htr, h] at this
+        obtain ⟨a, b, c⟩ := t
+        cases hmi : m.idx with
+        | nil => exact hidx hmi
+        | cons i r' =>
+          rw [hmi] at this
+          simp only [flatTris, List.map_cons, List.getElem?_nil, List.cons.injEq] at this
+          have hlt' := hlt i (by rw [hmi]; simp)
+          rw [List.getElem?_eq_getElem hlt'] at this
+          cases this.1
+    refine ⟨⟨?_, ?_⟩, ?_⟩
+    · -- positions
+      rw [hps]
+      simp only [optOfList, hvne, ↓reduceIte]
+      exact attrMatches_some_aux _ (fun v => by cases v; rfl) _ _ _ _ hlt hposl
+    · -- uvs
+      cases hu : m.uv with
+      | none =>
+        have : g.uvs = [] := ht2 (by intro i _; simp [mkCorner, hu, slot])
+        simp [this, keepIfComplete, attrMatches]
+      | some us =>
+        obtain ⟨hl, hm'⟩ := ht1 us (by
+          intro i hi'
+          have hlt' := hw.uv us hu i hi'
+          refine ⟨by simp [mkCorner, hu, slot], hlt', hp.2.1 us hu i hlt'⟩)
+        have hne : g.uvs ≠ [] := by
+          intro h; rw [h] at hl; exact hvne (List.eq_nil_of_length_eq_zero (by rw [hvl, ← hl]; rfl))
+        simp only [keepIfComplete, hne, ne_eq, not_false_eq_true, hl, hvl, and_self, ↓reduceIte]
+        exact attrMatches_some_aux _ (fun v => by cases v; rfl) _ _ _ _ (hw.uv us hu) hm'
+    · -- normals
+      cases hn : m.nrm with
+      | none =>
+        have : g.normals = [] := hn2 (by intro i _; simp [mkCorner, hn, slot])
+        simp [this, keepIfComplete, attrMatches]
+      | some ns =>
+        obtain ⟨hl, hm'⟩ := hn1 ns (by
+          intro i hi'
+          have hlt' := hw.nrm ns hn i hi'
+          refine ⟨by simp [mkCorner, hn, slot], hlt', hp.2.2 ns hn i hlt'⟩)
+        have hne : g.normals ≠ [] := by
+          intro h; rw [h] at hl; exact hvne (List.eq_nil_of_length_eq_zero (by rw [hvl, ← hl]; rfl))
+        simp only [keepIfComplete, hne, ne_eq, not_false_eq_true, hl, hvl, and_self, ↓reduceIte]
+        exact attrMatches_some_aux _ (fun v => by cases v; rfl) _ _ _ _ (hw.nrm ns hn) hm'
+
+
+theorem groups_match_aux [DecidableEq α] (PV PN : List (V3 α)) (PT : List (V2 α)) :
+    ∀ (ms : List (String × Mesh α)) (gs : List (Group Corner α)) (vo to no : Nat) (carry : Option String),
+    (∀ p ∈ ms, WFMesh p.2) → PoolsAll PV PN PT vo to no ms → (∀ g ∈ gs, GInv pcId PV PN PT g) →
+    gs.map sumG = expSum vo to no carry ms → RoundTripsCarry id carry ms (gs.map toMesh) = true
+  | [], [], _, _, _, _, _, _, _, _ => rfl
+  | [], _ :: _, _, _, _, _, _, _, _, h => by simp [expSum] at h
+  | _ :: _, [], _, _, _, _, _, _, _, h => by
+    rename_i p _ ; obtain ⟨name, m⟩ := p; simp [expSum] at h
+  | (name, m) :: ms, g :: gs, vo, to, no, carry, hwf, hp, hi, h => by
+    simp only [List.map_cons, expSum, List.cons.injEq, sumG, Prod.mk.injEq] at h
+    obtain ⟨⟨hname, hft, hmats⟩, hrest⟩ := h
+    have hg := group_matches_aux PV PN PT vo to no carry m g (hwf (name, m) (by simp)) hp.1 (hi g (by simp)) hft hmats
+    have hr := groups_match_aux PV PN PT ms gs _ _ _ _ (fun p hp' => hwf p (by simp [hp'])) hp.2
+      (fun g' hg' => hi g' (by simp [hg'])) hrest
+    simp only [List.map_cons, RoundTripsCarry, Bool.and_eq_true, beq_iff_eq]
+    refine ⟨⟨?_, hg⟩, ?_⟩
+    · simp [toMesh, hname]
+    · rw [nextCarry_eq_aux]; exact hr
+
+/-- no mesh without material ranges (but with faces) comes after a mesh with ranges — outside this class the
+    reader's carried material shows up (known deviation `roundtrip_matless_after_mat`) -/
+def NoMatlessAfterMat : Option String → List (String × Mesh α) → Prop
+  | _, [] => True
+  | carry, (_, m) :: rest => (m.mats = [] → m.idx ≠ [] → carry = none) ∧ NoMatlessAfterMat (lastMat m.mats carry) rest
+
+theorem strict_of_carry_aux [DecidableEq α] : ∀ (ms gs : List (String × Mesh α)) (carry : Option String),
+    NoMatlessAfterMat carry ms → RoundTripsCarry id carry ms gs = true → RoundTrips id ms gs = true
+  | [], [], _, _, _ => rfl
+  | [], _ :: _, _, _, h => by simp [RoundTripsCarry] at h
+  | _ :: _, [], _, _, h => by simp [RoundTripsCarry] at h
+  | (name, m) :: ms, r :: gs, carry, hn, h => by
+    simp only [RoundTripsCarry, Bool.and_eq_true] at h
+    obtain ⟨⟨h1, h2⟩, h3⟩ := h
+    rw [nextCarry_eq_aux] at h3
+    have ih := strict_of_carry_aux ms gs _ hn.2 h3
+    have hm : expectMats carry m = writtenMats m := by
+      unfold expectMats
+      by_cases hmm : m.mats = []
+      · by_cases hi : m.idx = []
+        · cases carry <;> simp [hmm, hi, writtenMats]
+        · rw [hn.1 hmm hi]; simp [hmm, writtenMats]
+      · simp [hmm]
+    unfold RoundTrips at ih ⊢
+    simp only [List.length_cons, List.zip_cons_cons, List.all_cons, Bool.and_eq_true, beq_iff_eq] at ih ⊢
+    refine ⟨by omega, ⟨?_, ?_⟩, ih.2⟩
+    · simpa using h1
+    · rw [← hm]; exact h2
+
+/-- **C05, clause 1 — exactly what the code does.**  For every non-empty list of named well-formed triangle
+    meshes (hypotheses as in `obj_roundtrip_struct`): writing and reading back succeeds and the result
+    satisfies `RoundTripsCarry`: one group per mesh, same names, same number of triangles in the same
+    order, every corner with the same position / texture coordinate / normal (an absent attribute stays
+    absent), and the mesh's material ranges — where a mesh WITHOUT ranges inherits the material in effect. -/
+theorem obj_roundtrip_carry [DecidableEq α] (matFile : String) (ms : List (String × Mesh α)) (hne : ms ≠ [])
+    (hwf : ∀ p ∈ ms, WFMesh p.2) (hnb : NonemptyButLast ms) :
+    ∃ ls gs libs, writeObj matFile ms = .ok ls ∧ readObj pcId ls = .ok (gs, libs) ∧
+      RoundTripsCarry id none ms (gs.map toMesh) = true := by
+  obtain ⟨ls, gs, hw, hr, hs, pv, pn, pt⟩ := obj_roundtrip_struct matFile ms hne hwf hnb
+  refine ⟨ls, gs, _, hw, hr, ?_⟩
+  have hinv := readObj_corners pcId hr
+  rw [pv, pn, pt] at hinv
+  have hpools := poolsAll_aux ms [] [] []
+  simp only [List.nil_append, List.length_nil] at hpools
+  exact groups_match_aux _ _ _ ms gs 0 0 0 none hwf hpools hinv hs
+
+/-- **C05, clause 1 — as the property states it.**  Under the additional hypothesis that no mesh without
+    material ranges follows a mesh with ranges, the read-back scene satisfies the strict predicate
+    `RoundTrips` (same material ranges on every mesh, none invented). -/
+theorem obj_roundtrip [DecidableEq α] (matFile : String) (ms : List (String × Mesh α)) (hne : ms ≠ [])
+    (hwf : ∀ p ∈ ms, WFMesh p.2) (hnb : NonemptyButLast ms) (hmat : NoMatlessAfterMat none ms) :
+    ∃ ls gs libs, writeObj matFile ms = .ok ls ∧ readObj pcId ls = .ok (gs, libs) ∧
+      RoundTrips id ms (gs.map toMesh) = true := by
+  obtain ⟨ls, gs, libs, hw, hr, hc⟩ := obj_roundtrip_carry matFile ms hne hwf hnb
+  exact ⟨ls, gs, libs, hw, hr, strict_of_carry_aux ms _ none hmat hc⟩
+
+end final
+
 end roundtrip
 
 /-! ### the pinned defect: one shared offset for v / vt / vn -/
@@ -1320,6 +1647,18 @@ theorem obj_shared_offset_breaks :
      | .ok (gs, _) => RoundTrips id mixedWitness gs
      | .error _ => false) = true := by
   constructor <;> decide
+
+/-- the hypotheses of `obj_roundtrip` are satisfiable by a mixed-attribute scene -/
+example : mixedWitness ≠ [] ∧ NonemptyButLast mixedWitness ∧ NoMatlessAfterMat none mixedWitness ∧
+    ∀ p ∈ mixedWitness, WFMesh p.2 := by
+  refine ⟨by decide, ?_, ?_, ?_⟩
+  · exact And.intro (by decide) trivial
+  · exact And.intro (by intro _ _; rfl) (And.intro (by intro _ _; rfl) trivial)
+  · intro p hp
+    simp only [mixedWitness, List.mem_cons, List.not_mem_nil, or_false] at hp
+    rcases hp with rfl | rfl
+    · exact ⟨rfl, ⟨_, rfl, by decide⟩, (by intro us h; cases h), (by intro ns h; cases h), Or.inl rfl, (by decide)⟩
+    · exact ⟨rfl, ⟨_, rfl, by decide⟩, (by intro us h; cases h), (by intro ns h; cases h; decide), Or.inl rfl, (by decide)⟩
 
 end shared
 
